@@ -306,6 +306,18 @@ def pipe(exe, lines, timeout=1800, env=None):
         out += ['died rc=%d %s' % (p.returncode, p.stderr.strip().split('\n')[-1][:200] if p.stderr.strip() else '')] * (len(lines) - len(out))
     return out
 
+def pipe_resilient(exe, lines, max_restarts=40, **kw):
+    """like pipe, but when the server dies on a line (abort / assertion / sanitizer report) that line gets the `died ...` marker and the
+    server is restarted on the lines after it, so that one dying input does not hide the others"""
+    out = []; rest = list(lines); n = 0
+    while rest:
+        o = pipe(exe, rest, **kw)
+        k = next((i for i, x in enumerate(o) if x.startswith('died rc=')), None)
+        if k is None: out += o; break
+        out += o[:k + 1]; rest = rest[k + 1:]; n += 1
+        if n >= max_restarts: out += ['died (not run: too many restarts)'] * len(rest); break
+    return out
+
 def driver(lines):
     return pipe(driver_path(), lines)
 
